@@ -115,7 +115,13 @@ fn rand_strlit(rng: &mut Rng, cfg: &LefCfg) -> String {
 }
 fn rand_mask(rng: &mut Rng) -> Option<LefMask> {
     if rng.chance(1, 4) {
-        Some(LefMask::new(dec(rng.range(1, 3), 0)))
+        // the data model holds any decimal: mostly the customary 1..3, sometimes 0, larger or fractional spellings
+        Some(LefMask::new(match rng.below(8) {
+            0 => dec(0, 0),
+            1 => dec(rng.range(4, 999), 0),
+            2 => dec(rng.range(0, 30), 1),
+            _ => dec(rng.range(1, 3), 0),
+        }))
     } else {
         None
     }
